@@ -74,6 +74,9 @@ def build_shard(fns):
     g = F(r"consolidate_shards_in_directory$")
     rm = g.blocks_calling(r"std::fs::remove_file")
     wo = g.blocks_calling(r"write_out_from_reader")
+    direct = g.blocks_calling(r"^std::fs::write$|^std::fs::File::create|OpenOptions::open$|^std::fs::copy$|^std::fs::rename$")
+    sc.query("consolidation: the merged shard is written only through the temp-name + rename writer (no direct file creation / rename here)", ["false"] if (wo and not direct) else ["true"])
+    wo = wo + direct
     ct = g.blocks_calling(r"HashSet::<.*>::contains")
     if not (rm and wo and ct):
         raise LookupError("consolidate_shards_in_directory shape not recognised")
@@ -98,7 +101,7 @@ def build_sfc(fns):
     g = F(r"safe_file_creator::<impl at [^>]*>::close$")
     ren = g.blocks_calling(r"std::fs::rename")
     fl = g.blocks_calling(r"as std::io::Write>::flush$|as Write>::flush$")
-    if not (ren and fl):
+    if not ren:
         raise LookupError("SafeFileCreator::close shape not recognised")
     modeb.no_path_query(g, sc, "SafeFileCreator::close: rename only after the buffered writer was flushed", [g.entry], ren, fl)
     modeb.no_path_query(g, sc, "SafeFileCreator::close: a failed flush is never followed by the rename", modeb.after(g, g.blocks_calling(RESID)), ren, [])
